@@ -369,6 +369,84 @@ inline KVs drain(struct mtbl_iter *it, size_t limit = (size_t)-1) {
   return out;
 }
 
+// The fixed prelude of history mode 1 (see vf.h): the process writes four small tables (zlib, zstd, lz4hc, none behind 13
+// foreign bytes), reads each with checksum verification (full iteration, get, prefix, range, a few seeks), merges two of
+// them, calls every codec once, and destroys everything.  Nothing is judged here; the point is that the case that follows
+// runs in a process whose library state is no longer pristine.
+inline void table_prelude() {
+  KVs kv;
+  for (int i = 0; i < 60; i++) {
+    char k[24];
+    snprintf(k, sizeof k, "pre%c%03d", (i % 3) ? 'a' : '\xff', i * 3);
+    bytes v((size_t)((i * 37) % 300), (char)('A' + i % 23));
+    for (size_t j = 0; j < v.size(); j += 7) v[j] = (char)(i + (int)j);
+    kv.emplace_back(bytes(k), v);
+  }
+  std::sort(kv.begin(), kv.end(), [](const KV &a, const KV &b) { return bcmp3(a.first, b.first) < 0; });
+  std::vector<int> fds;
+  std::vector<struct mtbl_reader *> rds;
+  static const int comps[] = {2, 5, 4, 0};
+  for (int t = 0; t < 4; t++) {
+    WConfig c;
+    c.comp = comps[t];
+    c.block_size = 1024;
+    c.restart = 3 + t;
+    if (t == 3) c.prefix_len = 13;
+    int fd = write_table(c, kv);
+    if (fd < 0) continue;
+    struct mtbl_reader *rd = open_reader_fd(fd, true, t == 1);
+    fds.push_back(fd);
+    if (!rd) continue;
+    rds.push_back(rd);
+    const struct mtbl_source *src = mtbl_reader_source(rd);
+    const bytes &mid = kv[kv.size() / 2].first, &lo = kv[3].first, &hi = kv[kv.size() - 4].first;
+    struct mtbl_iter *its[4] = {mtbl_source_iter(src), mtbl_source_get(src, U(mid), mid.size()), mtbl_source_get_prefix(src, U(bytes("prea")), 4),
+                                mtbl_source_get_range(src, U(lo), lo.size(), U(hi), hi.size())};
+    for (auto &it : its) {
+      if (!it) continue;
+      drain(it, 25);
+      (void)mtbl_iter_seek(it, U(mid), mid.size());
+      drain(it, 3);
+      (void)mtbl_iter_seek(it, U(lo), lo.size());
+      drain(it);
+      mtbl_iter_destroy(&it);
+    }
+  }
+  if (rds.size() >= 2) {
+    struct mtbl_merger_options *mo = mtbl_merger_options_init();
+    mtbl_merger_options_set_merge_func(mo, [](void *, const uint8_t *, size_t, const uint8_t *v0, size_t l0, const uint8_t *, size_t, uint8_t **out, size_t *lout) {
+      *out = (uint8_t *)malloc(l0 ? l0 : 1);
+      memcpy(*out, v0, l0);
+      *lout = l0;
+    }, nullptr);
+    struct mtbl_merger *mg = mtbl_merger_init(mo);
+    mtbl_merger_options_destroy(&mo);
+    mtbl_merger_add_source(mg, mtbl_reader_source(rds[0]));
+    mtbl_merger_add_source(mg, mtbl_reader_source(rds[1]));
+    struct mtbl_iter *it = mtbl_source_iter(mtbl_merger_source(mg));
+    if (it) {
+      drain(it);
+      mtbl_iter_destroy(&it);
+    }
+    mtbl_merger_destroy(&mg);
+  }
+  for (auto &rd : rds) mtbl_reader_destroy(&rd);
+  for (int fd : fds) close(fd);
+  bytes buf(3000, 'q');
+  for (size_t i = 0; i < buf.size(); i += 5) buf[i] = (char)i;
+  for (int a = 1; a <= 5; a++) {
+    uint8_t *o = nullptr, *d = nullptr;
+    size_t lo2 = 0, ld = 0;
+    if (mtbl_compress((mtbl_compression_type)a, U(buf), buf.size(), &o, &lo2) == mtbl_res_success) {
+      if (mtbl_decompress((mtbl_compression_type)a, o, lo2, &d, &ld) == mtbl_res_success) free(d);
+      free(o);
+    }
+  }
+  uint8_t vb[10];
+  (void)mtbl_varint_encode64(vb, 0xffffffffffffffffull);
+  (void)mtbl_crc32c(U(buf), buf.size());
+}
+
 // first difference between two entry sequences, "" if equal
 inline std::string diff_kvs(const KVs &got, const KVs &want) {
   size_t n = std::min(got.size(), want.size());
